@@ -91,7 +91,34 @@ def requires(c):
     return z3.And(n_of(zf) >= 0, sizes_nonneg(zf), L["total"] >= 0)
 
 
-def loop_inv(lc):
+def entry_loop_roles():
+    """(engine loop ordinal, {"file_size": local, "compress_size": local}) of the entry loop of the REAL validate_zipfile, the
+    accumulators bound by role from the data flow (contracts/C11_roles.py); (0, reason) when the roles cannot be read off."""
+    import ast as _ast
+    from pyvc import loader
+    from contracts import C11_roles
+    try:
+        m = loader.module(ZB)
+        _k, lp, roles = C11_roles.loop_ordinal_and_roles(m, "validate_zipfile")
+        fnode = m.functions["validate_zipfile"]
+        loops = sorted((n for n in _ast.walk(fnode) if isinstance(n, (_ast.For, _ast.While))), key=lambda n: (n.lineno, n.col_offset))
+        return loops.index(lp), roles
+    except LookupError as e:
+        return 0, str(e)
+    except (OSError, SyntaxError, KeyError) as e:
+        return 0, f"{type(e).__name__}: {e}"
+
+
+def make_loop_inv(roles):
+    def inv(lc):
+        if not isinstance(roles, dict):
+            from pyvc.symex import Unsupported
+            raise Unsupported(f"running totals of the entry loop not identified: {roles}")
+        return loop_inv(lc, roles)
+    return inv
+
+
+def loop_inv(lc, roles):
     zf = lc.entry.lookup("zf").t
     Ld = lc.entry.obj(lc.entry.lookup("limits").ref).data
     L = {"total": Ld["max_total_uncompressed_bytes"].t, "single": Ld["max_single_uncompressed_bytes"].t,
@@ -99,8 +126,8 @@ def loop_inv(lc):
     i = lc.i
     j = z3.Int("j!inv")
     return z3.And(
-        ops.int_term(lc["total_uncompressed"]) == SU(zf, i),
-        ops.int_term(lc["total_compressed"]) == SC(zf, i),
+        ops.int_term(lc[roles["file_size"]]) == SU(zf, i),          # the local that accumulates file_size (bound by role)
+        ops.int_term(lc[roles["compress_size"]]) == SC(zf, i),     # the local that accumulates compress_size
         SU(zf, i) <= L["total"],
         z3.ForAll([j], z3.Implies(z3.And(j >= 0, j < i), z3.Not(entry_bad(info_at(zf, j), L))),
                   patterns=[info_at(zf, j)]),
@@ -176,6 +203,7 @@ LIMITS = p_obj("ZipBombLimits", {
 def contracts(reg):
     install_models(reg)
     out = []
+    loop_k, roles = entry_loop_roles()
     out.append(FnContract(
         target=f"{ZB}::_is_directory",
         params=[("info", p_ext("ZipInfo"))],
@@ -191,7 +219,7 @@ def contracts(reg):
         raises=[Raises("ExtractionZipBombError",
                        when=lambda c: z3.Or(z3.BoolVal(bool(c.st.ghost.get("infolist_failed"))),
                                             spec_reject(c.args["zf"].t, limits_of(c))))],
-        loops={0: LoopSpec(inv=loop_inv, label="entries")},
+        loops={loop_k: LoopSpec(inv=make_loop_inv(roles), label="entries")},
     ))
     def pos_restored(c):
         return common.bytesio_pos(c.st, c.args["file_like"]) == common.bytesio_pos(c.entry, c.args["file_like"])
